@@ -14,7 +14,10 @@ for d in sorted(Path(__file__).resolve().parent.parent.joinpath("seeded").iterdi
     prop = j["property"]
     r = res.get(prop, {})
     how = ", ".join(r.get("clauses", [])) if prop in caught else (f"missed (exit {r.get('exit')})")
-    hist = j.get("history", "")
+    er = j.get("earlier_runs", [])
+    hist = ""
+    if er and not er[0].get("caught_by"):
+        hist = "(first missed; caught after the check was strengthened)" if prop in caught else "(missed)"
     rows.append(f"| {j['id']} | {prop} | {j['needs'][:170]} | {'yes' if j.get('confirmed') else 'NO'} | {how} {hist} |")
 print("| id | property | what it needs to manifest | confirmed | caught by (clauses) |")
 print("|---|---|---|---|---|")
